@@ -7,6 +7,20 @@ import os
 ROOT = os.path.dirname(os.path.dirname(os.path.abspath(__file__)))
 
 CHECKS = {
+    "C11": dict(
+        category="exploration",
+        technique="exhaustive enumeration of canonical operation sequences (add/mutate/remove/new-instance) plus Hypothesis-drawn longer sequences against an abstract versioned-store model, invariants after every step",
+        text="Operation sequences over add(name in 2, source in 2, content in 3), mutate source, remove(name), new instance - all canonical sequences up to length 4 (quick) / 5 (thorough, 100k+ sequences) and random sequences up to 25 steps. After every step, through the current and a brand-new CsvPaths: get_named_file exists, holds the latest registered bytes and is named by their SHA-256; fingerprint, manifest length and per-entry fingerprints/source names equal the model; every version ever registered is still on disk unmodified; source edits change nothing stored; named_file_names equals the model.",
+        note="Trusted: the 30-line abstract model in vf/props/c11.py, hashlib. Exhaustive bound is length 5 (length 6 = 2.1M sequences was measured as too slow for a check).",
+        design="5 C11",
+    ),
+    "C12": dict(
+        category="exploration",
+        technique="model-based testing of add/re-add/replace/remove/new-instance histories over Hypothesis-generated csvpath groups with comments and identities",
+        text="Lists of 1-5 generated csvpaths with outer comments (before/after the path) carrying id/Id/ID/name/Name/NAME (precedence exercised), inner comments, newlines, print strings; histories of <=6 ops on 2 group names. After every op, through the current and a fresh instance: get_named_paths returns the same texts in order; name#id, $name.csvpaths.id, :from and :to select exactly the member/suffix/prefix; manifest length counts content changes only; last fingerprint equals sha256 of group.csvpaths; identities list equals the model; removed groups return None.",
+        note="Trusted: abstract model in vf/props/c12.py. Known finding: member text containing the separator marker.",
+        design="5 C12",
+    ),
     "C04": dict(
         category="exploration",
         technique="Hypothesis-generated fail/skip/stop/onmatch/error programs under several error policies, per-line valid()/failed() taps, compared with the reference interpreter",
